@@ -95,6 +95,13 @@ T_C04_SkipsOnlyUnavailable == (Observed /\ ~everFaulted) =>
 T_C04_SaturatedGetsNothing == Observed =>
   /\ C02_Bound
   /\ ~everFaulted => \A k \in 1..Len(DL) : DL[k][4] <= Limit
+\* C05 "after the roughly 500 ms back-off": right after an iteration of the accept loop the timeout it will hand to its
+\* next poll is no later than the EARLIEST pending back-off deadline (virtual clock, measured; 2 ms slack; iterations
+\* during which the driver moved the clock are not judged: the loop computes its timeout before the clock moves on;
+\* nor are Iter steps in which the real poll would have blocked, so that no iteration ran)
+T_C05_WakesForEarliestDeadline ==
+  (Observed /\ obs.ev = "step" /\ obs.do = "Iter" /\ obs.iterRan /\ ~obs.advInIter /\ St.running) =>
+     \A k \in 1..Len(St.lstRemain) : St.lstRemain[k] > 0 => (St.timeoutMs >= 0 /\ St.timeoutMs <= St.lstRemain[k] + 2)
 \* C05
 \* (pe: the recorded iteration started paused and no Resume was queued or anchored; pausedDispatch: while the driver
 \* iterated the loop to quiescence, some iteration that started paused with no Resume queued dispatched a connection)
